@@ -18,24 +18,40 @@ def side_reads(f):
 
 def rule_dims(ctx, py):
     R = "C19.DIMS"
+    from .. import pysym
+    from ..poly import Rat
     for name, side in (("kf_units_dimensions", "_substrates"), ("kr_units_dimensions", "_products")):
         f = py.fn(RX + name)
         rets = [r for r in ast.walk(f) if isinstance(r, ast.Return)]
         ctx.need(len(rets) == 1 and isinstance(rets[0].value, ast.Call), R, "%s: return not recognised" % name)
-        kw = {k.arg: py_poly(k.value) for k in rets[0].value.keywords}
-        n = Poly.sym("count")
-        want = {"space": Poly.const(3) * n - Poly.const(3), "time": Poly.const(-1), "quantity": Poly.const(1) - n}
+        # the accumulator: the one local that is updated inside the loop
+        loops = [x for x in ast.walk(f) if isinstance(x, ast.For)]
+        ctx.need(len(loops) == 1, R, "%s: coefficient loop not found" % name)
+        accs = {pyfe.src(x.target) for x in ast.walk(loops[0]) if isinstance(x, ast.AugAssign)} | \
+               {pyfe.src(x.targets[0]) for x in ast.walk(loops[0]) if isinstance(x, ast.Assign)}
+        ctx.need(len(accs) == 1, R, "%s: accumulator not identified (%s)" % (name, sorted(accs)))
+        acc = list(accs)[0]
+        kw = {k.arg: pysym.frat(k.value, f, stop={acc}) for k in rets[0].value.keywords}
+        n = Rat.sym(acc)
+        want = {"space": Rat.const(3) * n - Rat.const(3), "time": Rat.const(-1), "quantity": Rat.const(1) - n}
         for k, w in want.items():
-            ctx.check(kw.get(k) == w, R, rets[0], f._qual, "%s: %s = %s" % (name, k, pyfe.src(
+            ctx.check(k in kw and kw[k].equals(w), R, rets[0], f._qual, "%s: %s = %s" % (name, k, pyfe.src(
                 [x.value for x in rets[0].value.keywords if x.arg == k][0]) if k in kw else "?"),
                 "amount^(1-n) length^(3n-3) / time", "exponent of %s is %r, expected %r (n = order)" % (k, kw.get(k), w))
-        # count = sum of the coefficients of that side
-        loops = [x for x in ast.walk(f) if isinstance(x, ast.For)]
-        ok = len(loops) == 1 and pyfe.src(loops[0].iter) in ("list(self.%s)" % side, "self.%s" % side) and \
-            len(loops[0].body) == 1 and pyfe.src(loops[0].body[0]) == "count += self.%s[%s]" % (side, pyfe.src(loops[0].target))
-        init = [x for x in f.body if isinstance(x, ast.Assign) and pyfe.src(x) == "count = 0"]
-        ctx.check(ok and len(init) == 1, R, f, f._qual, "%s: count = sum of self.%s coefficients" % (name, side), "",
-                  "the order is not the coefficient sum of %s" % side)
+        # n = sum of the coefficients of that side: one loop pass adds one coefficient of self.<side>
+        try:
+            step = pysym.one_iteration(loops[0].body, f, acc) - Rat.sym("ACC")
+        except pysym.NotModelled as e:
+            ctx.error(R, "%s: %s" % (name, e))
+        it, tg = pyfe.src(loops[0].iter), pyfe.src(loops[0].target)
+        ok = (it in ("list(self.%s)" % side, "self.%s" % side, "self.%s.keys()" % side) and
+              step.equals(Rat.sym("self.%s[%s]" % (side, tg)))) or \
+             (it == "self.%s.values()" % side and step.equals(Rat.sym(tg))) or \
+             (it == "self.%s.items()" % side and isinstance(loops[0].target, ast.Tuple) and
+              step.equals(Rat.sym(pyfe.src(loops[0].target.elts[1]))))
+        init = [x for x in f.body if isinstance(x, ast.Assign) and pyfe.src(x.targets[0]) == acc and pyfe.src(x.value) == "0"]
+        ctx.check(ok and len(init) == 1, R, f, f._qual, "%s: n = sum of the coefficients of self.%s" % (name, side), "",
+                  "the order is not the coefficient sum of %s (loop over %s adds %r per pass)" % (side, it, step))
     ctx.floor(R, 8)
 
 
@@ -102,8 +118,11 @@ def rule_split(ctx, py):
     # the engine splits every reaction and stacks forward, reverse
     h = py.fn("librdengine.LibRDEngine.setup")
     src = pyfe.src(h).replace(" ", "")
-    ctx.check("rf,rr=r.split()" in src and src.index("reactions.append(rf)") < src.index("reactions.append(rr)"), R, h,
-              h._qual, "engine reaction list = [fwd0, rev0, fwd1, rev1, ...]", "", "")
+    okl = ("rf,rr=r.split()" in src and "reactions.append(rf)" in src and "reactions.append(rr)" in src and
+           src.index("reactions.append(rf)") < src.index("reactions.append(rr)")) or \
+        "reactions.extend(r.split())" in src or "reactions+=r.split()" in src or "reactions+=list(r.split())" in src
+    ctx.check(okl, R, h, h._qual, "engine reaction list = [fwd0, rev0, fwd1, rev1, ...]", "", "the engine's reaction list is "
+              "not the forward / reverse halves of every reaction, in that order")
     ctx.floor(R, 4)
 
 
@@ -128,19 +147,27 @@ def rule_accum(ctx, py):
 
 def rule_matrix(ctx, py):
     R = "C19.MATRIX"
+    from .. import pysym
     for q, meth in (("librdengine.build_substrate_stoechiometric_matrix", "ssto"),
                     ("librdengine.build_stoechiometric_difference_matrix", "dsto")):
         f = py.fn(q)
         st = [n for n in ast.walk(f) if isinstance(n, ast.Assign) and isinstance(n.targets[0], ast.Subscript)]
         ctx.need(len(st) == 1, R, "%s: element store not found" % q)
-        idx = py_poly(st[0].targets[0].slice)
-        want = Poly.sym("s") * Poly.sym("n_reactions") + Poly.sym("r")
-        v = pyfe.src(st[0].value)
-        ok = idx == want and v == "reactions[r].%s(species_labels)[s]" % meth
-        ctx.check(ok, R, st[0], q, pyfe.src(st[0])[:90], "[species][reaction] entry = %s of reaction r for species s" % meth,
-                  "entry %r <- %s is not the %s coefficient of (species s, reaction r)" % (idx, v, meth))
-        loops = {pyfe.src(n.target): pyfe.src(n.iter) for n in ast.walk(f) if isinstance(n, ast.For)}
-        ctx.check(loops == {"s": "range(n_species)", "r": "range(n_reactions)"}, R, f, q, "loops %s" % loops, "", "")
+        loops = {pyfe.src(n.target): pysym.isrc(n.iter, f) for n in ast.walk(f) if isinstance(n, ast.For)}
+        sv = [v for v, it in loops.items() if it == "range(len(species))"]
+        rv = [v for v, it in loops.items() if it == "range(len(reactions))"]
+        ctx.check(len(sv) == 1 and len(rv) == 1, R, f, q, "loops %s" % loops, "one loop over the species, one over the reactions",
+                  "the loops do not range over species and reactions")
+        if len(sv) != 1 or len(rv) != 1:
+            continue
+        s_, r_ = sv[0], rv[0]
+        got = pysym.frat(st[0].targets[0].slice, f)
+        want = pysym.rat(ast.parse("%s * len(reactions) + %s" % (s_, r_), mode="eval").body)
+        v = pysym.isrc(st[0].value, f)
+        wantv = "reactions[%s].%s([s.label for s in species])[%s]" % (r_, meth, s_)
+        ok = got.equals(want) and v == wantv
+        ctx.check(ok, R, st[0], q, pyfe.src(st[0])[:90], "[species][reaction] entry = %s of reaction %s for species %s" % (meth, r_, s_),
+                  "entry %r <- %s is not the %s coefficient of (species, reaction) in [species][reaction] layout" % (got, v, meth))
     ctx.floor(R, 4)
 
 
